@@ -1,6 +1,7 @@
 package main
 
 import (
+	"math/big"
 	"fmt"
 	"go/types"
 	"time"
@@ -203,7 +204,8 @@ func registerIntrinsics(e *Engine) {
 		}
 		// unix-epoch offset from year 1 in nanoseconds does not fit int64; work modulo d instead
 		const unixToInternalSec = int64(62135596800)
-		offMod := (unixToInternalSec % d.Signed()) * (1000000000 % d.Signed()) % d.Signed()
+		off := new(big.Int).Mul(big.NewInt(unixToInternalSec), big.NewInt(1000000000))
+		offMod := off.Mod(off, big.NewInt(d.Signed())).Int64()
 		t := tt(a[0])
 		shifted := BVBin("bvadd", t, ConstBV(uint64(offMod), 64))
 		r := roundTo(shifted, d.Signed())
